@@ -46,6 +46,11 @@ def run_case(case, tier):
             desc["multiconf"] = d2.get("mode")
     if rng.random() < 0.3:
         recs = [r for r in recs if r.raw is None or r.tag != "TER   " or rng.random() < 0.5]
+    if rng.random() < 0.3:
+        # columns the model does not use (segment id, element, charge, occupancy ...) filled in
+        from .c07 import edit_columns
+        recs, _n, _a = edit_columns(recs, rng)
+        classes.append("unused-columns-filled")
     ids = sorted({r.chain for r in recs if r.raw is None})
     if case["kind"] == "file":
         subsets = [[ids[0]], [ids[-1]], ids]
